@@ -132,6 +132,8 @@ class P:
             return "ordering"
         if v == "Matrix":
             return "matrix"
+        if v in getattr(self, "iter_tparams", ()):
+            return ("iter", "Self")
         if v == "Option":
             self.eat("<")
             t = self.ty()
@@ -148,8 +150,15 @@ class P:
         self.eat("fn")
         name = self.next()[1]
         params = []
+        self.iter_tparams = set()
         if self.accept("<"):
             while not self.at(">"):
+                if not self.at("const") and self.peek()[0] == "id" and self.peek(1)[1] in (">", ","):
+                    # a type parameter; only accepted when the where clause says it is an iterator of Self
+                    self.iter_tparams.add(self.next()[1])
+                    if not self.accept(","):
+                        break
+                    continue
                 if not self.accept("const"):
                     raise Unsupported("generic type parameter")
                 gn = self.next()[1]
@@ -180,6 +189,26 @@ class P:
         ret = ("tuple", [])
         if self.accept("->"):
             ret = self.ty()
+        if self.at("where"):
+            # `where I: Iterator<Item = Self>` / `Iterator<Item = &'a Self>`: the only bound accepted
+            self.next()
+            tp = self.next()[1]
+            self.eat(":")
+            self.eat("Iterator")
+            self.eat("<")
+            self.eat("Item")
+            self.eat("=")
+            if self.accept("&"):
+                self.eat("'")
+                self.next()
+            self.eat("Self")
+            self.eat(">")
+            self.accept(",")
+            if tp not in self.iter_tparams:
+                raise Unsupported("where clause on a non-parameter")
+            self.iter_bound = True
+        elif self.iter_tparams:
+            raise Unsupported("generic type parameter")
         body = self.block()
         return name, params, ret, body
 
@@ -1309,6 +1338,19 @@ class Tr:
                 conv = "Conv.to_of (Conv.try_to_128 BITS {| Conv.pw := 128; Conv.psigned := false |} %s)" % paren(a0)
             return b0 + ["do %s <- %s ;" % (v, conv)], v, want
         br, ar, tr_ = self.ex(f, recv, env, want if m.startswith("wrapping_") else None)
+        if tr_ == ("iter", "uint") and m == "copied" and not args:
+            return br, ar, tr_
+        if tr_ == ("iter", "uint") and m == "fold" and len(args) == 2 and args[1][0] == "path" \
+                and args[1][1][0] == "Self" and len(args[1][1]) == 2 and ("U." + args[1][1][1]) in self.sigs:
+            # `iter.fold(init, Self::g)` over an iterator of Uint: a left fold of the binary method g
+            gname_, ptys_, rty_, pure_, mut_, uintm_ = self.sigs["U." + args[1][1][1]]
+            if ptys_ != ["uint", "uint"] or rty_ != "uint" or mut_ or not uintm_:
+                raise Unsupported("fold with " + args[1][1][1])
+            bi, ai, ti = self.ex(f, args[0], env, "uint")
+            f.impure = True
+            v = f.fresh()
+            step = ("(fun acc_ x_ => Val (%s BITS LIMBS acc_ x_))" if pure_ else "(fun acc_ x_ => %s BITS LIMBS acc_ x_)") % gname_
+            return br + bi + ["do %s <- fold_outcome %s %s %s ;" % (v, step, paren(ar), paren(ai))], v, "uint"
         if tr_ == "matrix" and ("M." + m) in self.sigs:
             b2, a2, t2 = self.apply(f, "M." + m, args, env, recv=("__atom", paren(ar)))
             return br + b2, a2, t2
@@ -2190,7 +2232,7 @@ class Tr:
                 return selfty
             if isinstance(t, tuple) and t[0] in ("tuple",):
                 return ("tuple", [subst(x) for x in t[1]])
-            if isinstance(t, tuple) and t[0] in ("option", "mutref", "slice"):
+            if isinstance(t, tuple) and t[0] in ("option", "mutref", "slice", "iter"):
                 return (t[0], subst(t[1]))
             return t
         ret = subst(ret)
@@ -2212,6 +2254,7 @@ class Tr:
                 env[pn] = (pn, pt)
                 ptys.append(pt)
             binders.append("(%s : %s)" % (pn, "bool" if pt == "bool" else "(Z * Z * Z * Z * bool)" if pt == "matrix" else
+                                          "list (list Z)" if pt == ("iter", "uint") else
                                           "list Z" if (pt == "uint" or (isinstance(pt, tuple) and pt[0] in ("slice", "arr"))) else "Z"))
 
         f.mutouts = mutouts
@@ -2436,6 +2479,12 @@ TARGETS = [
     ("src/lib.rs", UINT_IMPL, "saturating_from_limbs_slice", "U.saturating_from_limbs_slice", "g_saturating_from_limbs_slice", "uint"),
     ("src/log.rs", UINT_IMPL, "checked_log2", "U.checked_log2", "g_checked_log2", "uint"),
     ("src/log.rs", UINT_IMPL, "log2", "U.log2", "g_log2", "uint"),
+    ("src/add.rs", "Sum<Self> for Uint<BITS, LIMBS>", "sum", "U.sum", "g_sum", "uint"),
+    ("src/add.rs", "Sum<&'a Self> for Uint<BITS, LIMBS>", "sum", "U.sum_ref", "g_sum_ref", "uint"),
+    ("src/mul.rs", "Product<Self> for Uint<BITS, LIMBS>", "product", "U.product", "g_product", "uint"),
+    ("src/mul.rs", "Product<&'a Self> for Uint<BITS, LIMBS>", "product", "U.product_ref", "g_product_ref", "uint"),
+    ("src/add.rs", "Neg for Uint<BITS, LIMBS>", "neg", "U.neg", "g_neg", "uint"),
+    ("src/add.rs", "Neg for &Uint<BITS, LIMBS>", "neg", "U.neg_ref", "g_neg_ref", "uint"),
     ("src/pow.rs", UINT_IMPL, "overflowing_pow", "U.overflowing_pow", "g_overflowing_pow", "uint"),
     ("src/pow.rs", UINT_IMPL, "checked_pow", "U.checked_pow", "g_checked_pow", "uint"),
     ("src/pow.rs", UINT_IMPL, "saturating_pow", "U.saturating_pow", "g_saturating_pow", "uint"),
